@@ -545,10 +545,20 @@ func trackedParams(sig *types.Signature) []ptype {
 	return ps
 }
 
+func isBool(t types.Type) bool {
+	if t == nil {
+		return false
+	}
+	b, ok := t.Underlying().(*types.Basic)
+	return ok && b.Info()&types.IsBoolean != 0
+}
+
+// trackedResults: the results that can be nil, and the bool results (false is modelled as nil, true as
+// usable: `if !p.expect(..) { return nil }` is a guard on the result)
 func trackedResults(sig *types.Signature) []ptype {
 	var ps []ptype
 	for i := 0; i < sig.Results().Len(); i++ {
-		if tracked(sig.Results().At(i).Type()) {
+		if tracked(sig.Results().At(i).Type()) || isBool(sig.Results().At(i).Type()) {
 			ps = append(ps, ptype{i, sig.Results().At(i).Type()})
 		}
 	}
@@ -693,6 +703,44 @@ func (b *builder) cond(e ast.Expr, t, f *node) {
 			}
 		}
 	}
+	if call, ok := e.(*ast.CallExpr); ok {
+		if c := pk.calleeOf(call); c != nil && c.sig.Results().Len() == 1 && isBool(c.sig.Results().At(0).Type()) {
+			ops := b.call(call, nil)
+			if len(ops) == 1 && ops[0].k == opVar {
+				b.branch2(&node{kind: kGuard, x: ops[0].v, pos: e.Pos()}, t, f)
+				return
+			}
+			b.branch2(&node{kind: kBranch, pos: e.Pos()}, t, f)
+			return
+		}
+	}
 	b.expr(e)
 	b.branch2(&node{kind: kBranch, pos: e.Pos()}, t, f)
+}
+
+// boolOperand: the operand of a bool-typed result expression (false = nil, true = usable)
+func (b *builder) boolOperand(e ast.Expr) opnd {
+	pk := b.pk
+	if tv, ok := pk.info.Types[e]; ok && tv.Value != nil && tv.Value.Kind() == constant.Bool {
+		if constant.BoolVal(tv.Value) {
+			return good
+		}
+		return nilOp
+	}
+	if call, ok := ast.Unparen(e).(*ast.CallExpr); ok {
+		if c := pk.calleeOf(call); c != nil && c.sig.Results().Len() == 1 && isBool(c.sig.Results().At(0).Type()) {
+			ops := b.call(call, nil)
+			if len(ops) == 1 {
+				return ops[0]
+			}
+		}
+	}
+	b.expr(e)
+	return b.unknownBool(e.Pos())
+}
+
+func (b *builder) unknownBool(pos token.Pos) opnd {
+	v := b.temp(types.Typ[types.Bool])
+	b.set(v, rUnknown, 0, pos)
+	return opnd{opVar, v}
 }
